@@ -81,3 +81,28 @@ M("C11-R3-asc-not-dropped", "C11", [(L, '"asc" => self.next_lexem(),', '"asc" =>
 M("C11-R4-group-case", "C11", [(P, 'if s.to_lowercase() == "group" {\n                                if let Some(Lexem::By) = self.next_lexem() {\n                                    self.drop_lexem();\n                                    self.drop_lexem();\n                                    break;', 'if s == "group" {\n                                if let Some(Lexem::By) = self.next_lexem() {\n                                    self.drop_lexem();\n                                    self.drop_lexem();\n                                    break;')], ["case_parse_fields_group"])
 M("C11-R4-opfrom-case", "C11", [(O, "match text.to_lowercase().as_str() {\n            \"=\" | \"==\"", "match text.as_str() {\n            \"=\" | \"==\"")], ["operator_case"])
 M("C11-R5-curly-close-any", "C11", [(P, "if (lexem == Lexem::Close && !curly_mode)\n                        || (lexem == Lexem::CurlyClose && curly_mode) =>", "if lexem == Lexem::Close =>")], ["brackets_parse_function"])
+
+# ---------------------------------------------------------------- C04
+MO, CAPS, CFG = "src/mode.rs", "src/util/capabilities.rs", "src/config.rs"
+M("C04-R1-wgrp-bit", "C04", [(MO, "const S_IWGRP: u32 = 0o20;", "const S_IWGRP: u32 = 0o40;")], ["perm_mode_group_write"])
+M("C04-R1-type-bit-test", "C04", [(MO, "mode & S_IFMT == S_IFCHR", "mode & S_IFCHR == S_IFCHR")], ["type_mode_is_char_device"])
+M("C04-R1-user-all-or", "C04", [(MO, "mode_user_read(mode) && mode_user_write(mode) && mode_user_exec(mode)", "mode_user_read(mode) && mode_user_write(mode) || mode_user_exec(mode)")], ["perm_mode_user_all"])
+M("C04-R2-sgid-case-swapped", "C04", [(MO, "    if mode_group_exec(mode) {\n        if mode_sgid(mode) {\n            s.push('s')", "    if mode_group_exec(mode) {\n        if mode_sgid(mode) {\n            s.push('S')")], ["mode-string_permissions"])
+M("C04-R2-type-order", "C04", [(MO, "s.push('p')", "s.push('f')")], ["mode-string_type-char"])
+M("C04-R3-uid-gid", "C04", [(S, "if let Some(uid) = mode::get_uid(attrs) {\n                        return Variant::from_int(uid as i64);", "if let Some(uid) = mode::get_gid(attrs) {\n                        return Variant::from_int(uid as i64);")], ["accessor_Uid"])
+M("C04-R3-sha256-512", "C04", [(S, "Variant::from_string(&crate::util::get_sha256_file_hash(entry))", "Variant::from_string(&crate::util::get_sha512_file_hash(entry))")], ["accessor_Sha256"])
+M("C04-R3-isbook-doc", "C04", [(S, "                .is_book\n                .as_ref()\n                .unwrap_or(self.default_config.is_book.as_ref().unwrap()),", "                .is_book\n                .as_ref()\n                .unwrap_or(self.default_config.is_doc.as_ref().unwrap()),")], ["extension-class_is_book"])
+M("C04-R3-groupexec-pred", "C04", [(S, "&mode::mode_group_exec,", "&mode::mode_group_write,")], ["accessor_GroupExec"])
+M("C04-R3-inode-nlink", "C04", [(S, "return Variant::from_int(attrs.nlink() as i64);", "return Variant::from_int(attrs.ino() as i64);")], ["accessor_Hardlinks"])
+M("C04-R3-sha1-uses-sha256", "C04", [(U, "let mut hasher = sha1::Sha1::new();", "let mut hasher = sha2::Sha256::new();")], ["digest_get_sha1"])
+M("C04-R4-clear-misses-linecount", "C04", [(S, "        self.line_count_set = false;\n        self.line_count = None;\n\n        self.dimensions_set = false;\n        self.dimensions = None;\n\n        self.duration_set = false;\n        self.duration = None;\n\n        self.mp3_metadata_set = false;\n        self.mp3_metadata = None;\n\n        self.exif_metadata_set = false;\n        self.exif_metadata = None;\n    }\n\n    fn update_file_metadata",
+                                               "        self.line_count = None;\n\n        self.dimensions_set = false;\n        self.dimensions = None;\n\n        self.duration_set = false;\n        self.duration = None;\n\n        self.mp3_metadata_set = false;\n        self.mp3_metadata = None;\n\n        self.exif_metadata_set = false;\n        self.exif_metadata = None;\n    }\n\n    fn update_file_metadata")], ["memo_clear_line_count_set"])
+M("C04-R4-clear-after-conforms", "C04", [(S, "        self.fms.clear();\n\n        if let Some(ref expr) = self.query.expr {\n            let result = self.conforms(entry, file_info, expr);\n            if !result {\n                return Ok(true);\n            }\n        }\n", "        if let Some(ref expr) = self.query.expr {\n            let result = self.conforms(entry, file_info, expr);\n            if !result {\n                return Ok(true);\n            }\n        }\n\n        self.fms.clear();\n")], ["memo_clear-first"])
+M("C04-R5-follow-stat", "C04", [(U, "true => symlink_metadata(entry.path()),", "true => fs::metadata(entry.path()),")], ["lstat"])
+M("C04-R6-linecount-cr", "C04", [(U, "bytecount::count(buf, b'\\n')", "bytecount::count(buf, b'\\r')")], ["content_line_count"])
+M("C04-R6-shebang-offset", "C04", [(U, "buf[0] == 0x23 && buf[1] == 0x21", "buf[0] == 0x23 || buf[1] == 0x21")], ["content_is_shebang"])
+M("C04-R6-ext-case", "C04", [(U, "let s = file_name.to_ascii_lowercase();\n\n    for ext in extensions {", "let s = file_name.to_string();\n\n    for ext in extensions {")], ["content_has_extension"])
+M("C04-R6-zip-ear", "C04", [(CFG, 'vec_of_strings![".zip", ".jar", ".war", ".ear"]', 'vec_of_strings![".zip", ".jar", ".war"]')], ["config_is_zip_archive"])
+M("C04-R7-cap-bpf-bit", "C04", [(CAPS, "check_cap!(cap_bpf, 39 - 32, permitted, inherited, effective, result);", "check_cap!(cap_bpf, 38 - 32, permitted, inherited, effective, result);")], ["capability_cap_bpf"])
+M("C04-R7-cap-word", "C04", [(CAPS, "let permitted = u32::from_le_bytes(caps[12..16].try_into().unwrap());", "let permitted = u32::from_le_bytes(caps[4..8].try_into().unwrap());")], ["capability_cap_mac"])
+M("C04-V-perm-nonzero", "C04", [(MO, "mode & S_IRUSR == S_IRUSR", "mode & S_IRUSR != 0")], kind="variant")
